@@ -239,3 +239,6 @@ if not np.array_equal(r, exp): reproduced('analog rises differ from upward thres
 not_reproduced()
 """
     return None
+
+# level text addendum (cases added after the seeded-change rounds)
+LEVEL_TEXT = LEVEL_TEXT + ' Also: Reader.read_sync on a nidq file (digital bits + per-line floor removal of the analog lines), twice on one reader.'
